@@ -187,6 +187,34 @@ Section Proofs.
       rewrite E; split; try discriminate; intros; discriminate.
   Qed.
 
+  (* one vm step preserves any further invariant K that the applied call of THIS send re-establishes (the
+     hypothesis may use facts about this send and this state, e.g. that its hash is fresh) *)
+  Definition result_acct (r : rres cstate) : option cacct :=
+    match r with RApplied a' _ | RRefunded a' _ _ => Some a' | _ => None end.
+  Theorem vm_step_preserves (K : cacct -> Prop) lookup a s :
+    table_ok lookup -> nonneg a -> J a -> send_ok s -> dest_check (refund_of s) = None -> K a ->
+    (forall a1 a2, K a1 -> a_store a2 = a_store a1 -> (forall z, bal_get (a_bal a2) z = bal_get (a_bal a1) z) -> K a2) ->
+    (forall m a' ds a'', lookup s = LFound m -> m (credited a s) s = MOk a' ds -> nonneg a' -> Forall ds_ok ds ->
+                         apply_all a' ds = ASOk a'' -> K a'') ->
+    forall a', result_acct (generate_receive lookup a s) = Some a' -> K a'.
+  Proof.
+    intros T Hn HJ Hs Hd HK Kext Kstep a'. unfold generate_receive.
+    set (a0 := pop_front cstate a).
+    assert (Hn0 : nonneg a0) by (intros z; apply Hn).
+    assert (Hroll : forall code, result_acct (rollback (Some a0) s code) = Some a' -> K a').
+    { intros code. destruct (rollback_spec a0 s code Hn0 Hs Hd) as (ar & E & Hc & Hst & Hn' & Hg).
+      rewrite E. cbn [result_acct]. intros Ea; inversion Ea; subst ar.
+      apply (Kext a a' HK); [rewrite Hst; reflexivity | intros z; rewrite Hg; reflexivity]. }
+    destruct (lookup s) as [m| |] eqn:El.
+    - change (add_balance cstate a0 (s_zts s) (s_amount s)) with (credited a s).
+      destruct (m (credited a s) s) as [a2 ds| |] eqn:Em; [|apply Hroll|discriminate].
+      destruct (t_frame lookup T s m a a2 ds El HJ Hn Hs Em) as (Hc2 & Hn2 & Hds & _).
+      destruct (apply_all a2 ds) as [a3| |] eqn:Ea; [|apply Hroll|discriminate].
+      cbn [result_acct]. intros E; inversion E; subst a3. eapply Kstep; eauto.
+    - apply Hroll.
+    - discriminate.
+  Qed.
+
   (* a call to a method that a spork retired between send and receive is refunded *)
   Theorem method_removed_refunds lookup a s :
     lookup s = LNotFound -> nonneg a -> send_ok s -> dest_check (refund_of s) = None ->
